@@ -121,6 +121,13 @@ impl ZbsDiff {
         let header = ZbsdiffHeader::read_options(&mut cursor, binrw::Endian::Little, ())?;
         header.validate()?;
 
+        // The two block sizes describe data that must follow the header
+        if (header.control_size as u64).saturating_add(header.diff_size as u64)
+            > (data.len() as u64).saturating_sub(cursor.position())
+        {
+            return Err(std::io::Error::from(std::io::ErrorKind::UnexpectedEof).into());
+        }
+
         // Read compressed blocks based on header sizes
         let mut control_data = vec![0u8; header.control_size as usize];
         cursor.read_exact(&mut control_data)?;
